@@ -59,6 +59,20 @@ int main(int argc, char **argv) {
   params.release_version = "1.0.0"; params.original_libapp_paths = libs; params.original_libapp_paths_size = 1;
   params.app_storage_dir = st; params.code_cache_dir = ca;
   FileCallbacks cbs = { cb_open, cb_read, cb_seek, cb_close };
+  /* initialisations a C caller can get wrong: each must answer false, touch nothing, and leave the library usable */
+  int refused = 0;
+  {
+    AppParameters bad;
+    refused += !shorebird_init(NULL, cbs, "app_id: abi-test\n");
+    refused += !shorebird_init(&params, cbs, NULL);
+    refused += !shorebird_init(&params, cbs, "app_id: \xff\xfe\n");
+    bad = params; bad.release_version = "1.0.\xff"; refused += !shorebird_init(&bad, cbs, "app_id: abi-test\n");
+    bad = params; bad.app_storage_dir = "/tmp/\xff\xfe"; refused += !shorebird_init(&bad, cbs, "app_id: abi-test\n");
+    bad = params; bad.code_cache_dir = NULL; refused += !shorebird_init(&bad, cbs, "app_id: abi-test\n");
+    bad = params; bad.original_libapp_paths_size = 0; refused += !shorebird_init(&bad, cbs, "app_id: abi-test\n");
+    bad = params; bad.original_libapp_paths_size = -1; refused += !shorebird_init(&bad, cbs, "app_id: abi-test\n");
+  }
+  printf("RESULT refused_inits=%d\n", refused);
   bool ok = shorebird_init(&params, cbs, "app_id: abi-test\nbase_url: http://127.0.0.1:9\n");
   printf("RESULT init=%d second_init=%d\n", ok, shorebird_init(&params, cbs, "app_id: other\n"));
   printf("RESULT next=%lu current=%lu auto=%d\n", (unsigned long)shorebird_next_boot_patch_number(),
@@ -68,7 +82,9 @@ int main(int argc, char **argv) {
   for (int i = 0; i < iters; i++) {
     char *path = shorebird_next_boot_patch_path();
     if (path && strstr(path, "/patches/1/dlc.vmcode")) good_paths++;
-    const UpdateResult *r = shorebird_update_with_result(i % 2 ? "beta" : NULL);
+    /* the channel argument in every shape a C caller can hand over: absent, plain, not UTF-8, empty */
+    static const char *const channels[4] = { NULL, "beta", "\xff\xfe", "" };
+    const UpdateResult *r = shorebird_update_with_result(channels[i % 4]);
     if (r && r->status == SHOREBIRD_UPDATE_ERROR && r->message) results++;
     /* release in both orders */
     if (i % 2) { shorebird_free_string(path); shorebird_free_update_result((UpdateResult *)r); }
